@@ -102,13 +102,13 @@ def plan(tier, seed):
     n_api = 12
     per = 1200 if quick else 25000
     for i in range(n_api):
-        specs.append({'part': 'api', 'shard': i, 'count': per, 'timeout': 600 if quick else 4000, 'budget_s': 45 if quick else 1000})
+        specs.append({'part': 'api', 'shard': i, 'count': per, 'timeout': 600 if quick else 6000, 'budget_s': 45 if quick else 1000})
     for i in range(2):
-        specs.append({'part': 'sna2img', 'shard': i, 'count': 700 if quick else 15000, 'timeout': 600 if quick else 4000, 'budget_s': 45 if quick else 1000})
+        specs.append({'part': 'sna2img', 'shard': i, 'count': 700 if quick else 15000, 'timeout': 600 if quick else 6000, 'budget_s': 45 if quick else 1000})
     for i in range(2):
-        specs.append({'part': 'html', 'shard': i, 'count': 60 if quick else 2000, 'timeout': 600 if quick else 4000, 'budget_s': 45 if quick else 1000})
+        specs.append({'part': 'html', 'shard': i, 'count': 60 if quick else 2000, 'timeout': 600 if quick else 6000, 'budget_s': 45 if quick else 1000})
     for i in range(FRAMES_SHARDS):
-        specs.append({'part': 'frames', 'shard': i, 'count': 45 if quick else 1500, 'timeout': 600 if quick else 4000, 'budget_s': 45 if quick else 1000})
+        specs.append({'part': 'frames', 'shard': i, 'count': 45 if quick else 1500, 'timeout': 600 if quick else 6000, 'budget_s': 45 if quick else 1000})
     return specs
 
 # ------------------------------------------------------------------ monitor
